@@ -1077,6 +1077,16 @@ func ruleCompletionPaths(c *Ctx, a *cacheAnchors, want map[string]bool) {
 				if iv.Lo == nil || iv.Lo.Sign() < 1 {
 					report("ttl-positive", fmt.Sprintf("ttl %s added to the clock has range %s: a non-positive period makes the marker/entry lapse at once on %s", prettyTerm(T), iv, where))
 				}
+				// the upper bound, too, may have been established on the converted value (int64(ttl) <= max)
+				if iv.Hi == nil || iv.Hi.BitLen() > 33 {
+					for _, u := range []*Term{E.Args[0], E.Args[1]} {
+						if !isClock(u) {
+							if iv2 := f.Interval(u); iv2.Hi != nil && iv2.Hi.BitLen() <= 33 {
+								iv.Hi = iv2.Hi
+							}
+						}
+					}
+				}
 				if cls == a.stHit && (iv.Hi == nil || iv.Hi.BitLen() > 33) {
 					report("no-wrap", fmt.Sprintf("ttl %s has range %s: clock + ttl can overflow int64 (entry expired at birth) on %s", prettyTerm(T), iv, where))
 				}
